@@ -37,7 +37,7 @@ def classify : List Entry → List Entry → List String
 this platform, no `:error`) and whose parse is error-free has `expected = actual`. -/
 def entryPasses (orc : Oracle) (e : Entry) : Bool :=
   if e.attrs.expect != .pass || !e.attrs.platform then true
-  else e.attrs.languages.all fun l =>
+  else (e.attrs.languages.take 1).all fun l =>   -- the expectation written is the first language's
     match orc l e.input with
     | none => true
     | some a =>
@@ -45,6 +45,7 @@ def entryPasses (orc : Oracle) (e : Entry) : Bool :=
       a.hasError || containsSub "ERROR".toList actual || containsSub "MISSING".toList actual || actual == e.output
 
 structure JudgeIn where
+  fx : Fixes
   os : Str
   orig : Str
   ent0 : List Entry
@@ -74,17 +75,17 @@ def judge (j : JudgeIn) : List String :=
   let pres := dedup (classify j.ent0 j.ent1)
   let lines0 := splitIncl j.orig
   let lines1 := splitIncl j.after1
-  -- a suffixed file must not gain suffix-less `===` lines: every `===` line without suffix of the new
-  -- file is (up to its line ending) a line of the old file (there it was inside an input or expectation)
+  -- a suffixed file must not gain suffix-less `===` lines: the new file has, for each length, at most as many
+  -- `===` lines without suffix as the old file (there it was inside an input or expectation)
   let bare (ls : List Str) : List Nat := ls.filterMap fun l => match parseDelimLine l '=' with
     | some (n, []) => some n
     | _ => none
-  let suffix := if j.wrote1 && (firstSuffix lines0).isSome && !((bare lines1).all (bare lines0).contains) then ["suffix-lost"] else []
+  let suffix := if j.wrote1 && (firstSuffix lines0).isSome && !((bare lines1).all fun n => (bare lines1).count n ≤ (bare lines0).count n) then ["suffix-lost"] else []
   let pre := if !j.ent1.isEmpty && preamble j.os j.orig != preamble j.os j.after1 then ["preamble-deleted"] else []
   let wf := j.ent0.all fun e => e.attrs.cst || sexpLike e.output
   let passes := if j.wrote1 && !(j.ent1.all (entryPasses j.orc)) then ["passes"] else []
   let idem := if wf && j.after2 != j.after1 then ["idempotent"] else []
-  let fmt := if j.sexps.all (fun s => normalizeSexp (trim (formatSexp s)) == s) then [] else ["format-normalize"]
+  let fmt := if j.sexps.all (fun s => normalizeSexp (trim (formatSexp j.fx s)) == s) then [] else ["format-normalize"]
   pres ++ suffix ++ pre ++ passes ++ idem ++ fmt
 
 end TsVerif.C20
